@@ -42,6 +42,7 @@ import (
 	"github.com/insomniacslk/dhcp/dhcpv6"
 	"github.com/insomniacslk/dhcp/rfc1035label"
 
+	"verifmc/checks/lease"
 	"verifmc/ev"
 	"verifmc/pkt"
 	"verifmc/reg"
@@ -350,9 +351,17 @@ func worker(id string, args []string) int {
 	if err := json.Unmarshal([]byte(args[0]), &v); err != nil {
 		panic(err)
 	}
+	if v.Plugin == "range" && len(v.Args) == 1 && v.Args[0] == roHistories {
+		lease.ReadOnlyDB(r, id, 2)
+		return reg.WorkerExit(r)
+	}
 	runVec(r, id, v)
 	return reg.WorkerExit(r)
 }
+
+// roHistories marks the stateful C19 scenario: the range plugin restarted on a lease database
+// that has become read-only (accepted at start-up), then driven with request histories.
+const roHistories = "@histories-on-a-read-only-lease-database"
 
 func argClass(v Vec) string {
 	return fmt.Sprintf("%s/v%d/arity=%d", v.Plugin, v.Proto, len(v.Args)+len(v.Args4))
@@ -908,6 +917,8 @@ func run(r *ev.Run, id string) {
 		r.Rule("E3, one process per (plugin, protocol, argument vector): vectors of arity 0..2 (thorough 0..3) over per-plugin atom alphabets (valid, boundary and invalid values of each argument kind, foreign kinds) for all 15 built-in plugins; accepted configurations are driven with the C17 request battery (+IA_PD hints incl. v4-mapped for DHCPv6). Oracle: Setup errs, or no panic and reply == FromBytes(ToBytes(reply)) re-encoded, and every option the plugin wrote re-parses to the same bytes with a typed parser. Class = plugin/proto/arity/accepted|rejected + outcomes.")
 		r.Assume("sleep durations limited to <= 1ms; pool orders <= 16")
 		vecs = c19Vectors(scratch, !r.Quick())
+		r.Rule("plus, for the range plugin (the one built-in with persistent state): every history of <= 2 requests (3 clients, DISCOVER/REQUEST), a restart on the lease database opened read-only (environment fault; a start-up error is accepted), then every history of <= 2 further requests; oracle: no panic.")
+		vecs = append(vecs, Vec{Plugin: "range", Proto: 4, Args: []string{roHistories}})
 	}
 	r.Set("vectors", int64(len(vecs)))
 	spawnAll(r, id, vecs)
@@ -917,6 +928,10 @@ func replay(r *ev.Run, id string, raw json.RawMessage) {
 	var c Case
 	if err := json.Unmarshal(raw, &c); err != nil {
 		r.Violate(id+"/replay/bad-file", err.Error(), nil)
+		return
+	}
+	if c.Vec.Plugin == "" && strings.Contains(string(raw), `"history"`) {
+		lease.Replay(r, id, raw)
 		return
 	}
 	b, _ := json.Marshal(c.Vec)
@@ -958,6 +973,10 @@ func validVectors(thorough bool) []Vec {
 		add("searchdomains", 6, a...)
 	}
 	for _, a := range [][]string{{"10.0.0.0/8,192.0.2.1"}, {"0.0.0.0/0,192.0.2.1"}, {"128.0.0.0/1,10.0.0.1", "10.20.0.0/25,10.0.0.2"}, {"192.0.2.7/32,10.0.0.3", "10.0.0.0/8,10.0.0.1", "172.16.0.0/12,10.0.0.9"}} {
+		add("staticroute", 4, a...)
+	}
+	// destinations written with host bits set: option 121 carries the NETWORK (RFC 3442)
+	for _, a := range [][]string{{"10.0.5.0/20,10.0.0.1"}, {"192.168.1.77/25,192.168.1.1", "172.16.5.4/12,10.0.0.2"}, {"10.255.255.255/9,10.0.0.1", "1.2.3.4/31,1.2.3.5", "203.0.113.9/1,10.0.0.3"}} {
 		add("staticroute", 4, a...)
 	}
 	for _, u := range []string{"tftp://10.0.0.1/boot/pxe.0", "http://boot.example.com/ipxe.efi", "https://boot.example.com/x?params=a%3Db", "ftp://10.0.0.1/f", "tftp://[2001:db8::1]/y", "http://[2001:db8::1]/boot.efi?params=quiet"} {
